@@ -322,3 +322,21 @@ reg(
     TECHNIQUE="reference-model comparison (sequential, exhaustive) + linearizability checking of scheduler-controlled concurrent histories + disposal/bound/leak monitors",
     REQUIRED_MONITORS={"quick": {"sequential_history": 100000, "container_schedule": 500, "linearizability": 500, "manager_schedule": 200, "same_key_same_pool": 200, "inflight_and_sweep": 200}, "thorough": {"sequential_history": 10**6, "container_schedule": 10000, "manager_schedule": 5000}},
 )
+
+reg(
+    "C07",
+    RULE="(server certificate, client settings, route, backend): leaf in {exact, wildcard, upper-case wildcard, IPv4, IPv6, commonName-only, other name, multi-SAN} x issuer in {trusted, untrusted CA} x requested host form (case, trailing dot, sub-label, bare domain, IPv4, bracketed IPv6 with and without zone, A-label) x cert_reqs in {unset, REQUIRED, OPTIONAL, NONE} x assert_hostname in {unset, False, matching name, other name} x assert_fingerprint in {unset, sha256, sha1, md5, colon/upper-case spelling, wrong digest, bad length} x server_hostname in {unset, right, wrong} x ssl_context in {none, default-like, check_hostname off, verify none} x CA source in {ca_certs, ca_cert_data, none} x route in {direct, CONNECT tunnel through an http proxy} x backend in {ssl, pyOpenSSL}; one-factor-at-a-time around the secure default for every leaf x host, plus random lattice points; a case is that tuple; all non-trivial (each makes a real handshake)",
+    ASSUMPTIONS=COMMON_ASSUMPTIONS + [
+        "reference 'demanded checks': chain validation is demanded unless the effective mode is CERT_NONE (cert_reqs if given, else the caller context's verify_mode, else REQUIRED) and passes iff the issuer is the configured CA; a pin replaces the hostname check; otherwise a hostname match is demanded unless assert_hostname is False, against assert_hostname / server_hostname / the requested host (brackets, zone and trailing dot removed), judged by the three-valued RFC 6125 reference of C08 with commonName disabled",
+        "cert_reqs=CERT_NONE on a caller-supplied context that keeps check_hostname on is a configuration conflict the ssl module rejects with ValueError before any I/O; only 'no bytes sent' is judged there",
+        "'socket closed' is observed on the server side (the handler sees EOF within 2.5 s while the harness still holds the raised exception); 'not one byte' is the number of application-data bytes the origin decrypted",
+        "under pyOpenSSL 26 the ca_cert_data-only configuration fails closed in urllib3.contrib.pyopenssl (load_verify_locations(None, None)); it is counted as an over-strict rejection, not judged",
+        "TLS-in-TLS (https proxy) lattice points are exercised by C09, not here; client certificates and ssl_version pins are not varied",
+    ],
+    SHARDS={"quick": 8, "thorough": 16},
+    BUDGET={"quick": 40, "thorough": 420},
+    LEVEL_TEXT="Runtime monitoring of real TLS handshakes: a loopback origin (directly or inside a CONNECT tunnel) with throw-away CAs records whether the handshake completed and how many application bytes it decrypted; for each lattice point the reference 'demanded checks' predicate says must-reject / must-accept / either, and the monitors judge bytes-at-origin, the surfaced exception class, server-observed socket closure, InsecureRequestWarning and is_verified; both the stdlib ssl and the pyOpenSSL backend (separate shard processes).",
+    LEVEL_NOTE="Trusts OpenSSL's chain building and the 40-line demanded-checks predicate (reusing C08's reference matcher); lattice points outside the enumerated factor values are not covered.",
+    TECHNIQUE="runtime monitoring with a server-side observer: real handshakes over loopback, two-party byte accounting, three-valued reference for the demanded checks",
+    REQUIRED_MONITORS={"quick": {"lattice_point": 2000, "must_reject": 1000, "must_accept_accepted": 500, "verified_bookkeeping": 500}, "thorough": {"lattice_point": 30000, "must_reject": 15000, "must_accept_accepted": 8000, "verified_bookkeeping": 8000}},
+)
